@@ -13,6 +13,7 @@ import (
 	"strings"
 	"sync"
 	"testing"
+	"time"
 
 	"github.com/dave/jennifer/jen"
 	"pgregory.net/rapid"
@@ -22,6 +23,7 @@ import (
 	"verif/internal/mutate"
 	"verif/internal/recipe"
 	"verif/internal/rt"
+	"verif/internal/shrink"
 )
 
 // ---- (a) synthetic lists: every construct x arity x subset of null positions ----
@@ -391,6 +393,12 @@ func TestC13(t *testing.T) {
 					return
 				}
 				_, n := mutate.InjectNulls(p.Recipe, dec, 6)
+				if hx.Safe(func() error { return checkProg(c) }) != nil {
+					// minimise the program (the decisions are replayed on every candidate)
+					c.Src = recipe.Text(shrink.Source(src, func(b []byte) bool {
+						return hx.Safe(func() error { return checkProg(progCase{Name: c.Name, Src: recipe.Text(b), Dec: c.Dec}) }) != nil
+					}, 15*time.Second))
+				}
 				ok := hx.One(r, ckP, c)
 				r.ClassN("injected_null_items", n)
 				if ok && n > 0 {
